@@ -15,7 +15,7 @@ ANCHORS = [('src/msmhelper/md/corrections.py', ['dynamical_coring', '_dynamical_
            ('src/msmhelper/msm/timescales.py', ['_estimate_times', 'propagate_MCMC', '_get_cummat', 'implied_timescales']),
            ('src/msmhelper/msm/tests.py', ['chapman_kolmogorov_test'])]
 RULE = ('random histories of 6-14 (quick) / up to 40 (thorough) public calls on SHARED arguments (list of arrays, one shared StateTraj object, a shared '
-        'unsorted lag-time ndarray, a transition matrix, a coordinate table, relabelling lists): estimation, implied timescales, CK test, coring, md waiting '
+        'unsorted lag-time ndarray, contiguous 1-d / 2-d label arrays with negative labels, a transition matrix, a coordinate table, relabelling lists): estimation, implied timescales, CK test, coring, md waiting '
         'times / paths, similarity, shift_data / rename_*, eigen / ergodicity / equilibrium, filters, and the sampling functions; interleaved with '
         'reseeding of the Python, NumPy and compiled generators. Every argument is snapshotted (bytes, dtype, shape) before and after every call; every '
         'deterministic call is repeated at a later point of the history and must return the same value; every sampling call is repeated after restoring '
@@ -24,7 +24,7 @@ RELATION = ('heap model (Heap.step): analyses only read; the real history must s
             '(theorems C18.args_unchanged / repeatable / access_deterministic say this of the model)')
 PARTIAL = 'the theorem about the model is thin; the assurance is the history differential'
 TRUSTED = ['snapshot comparison of numpy buffers; generator reseeding through random.seed, np.random.seed and a jitted random.seed']
-DET = ['est_big', 'est', 'est_obj', 'its', 'its_obj', 'ck', 'ck_obj', 'coring', 'coring_obj', 'wt', 'paths', 'sim', 'shift', 'rename_idx', 'rename_pop', 'unique',
+DET = ['shift_flat', 'rename_idx_flat', 'rename_pop_flat', 'shift_2d', 'rename_idx_2d', 'unique_flat', 'est_big', 'est', 'est_obj', 'its', 'its_obj', 'ck', 'ck_obj', 'coring', 'coring_obj', 'wt', 'paths', 'sim', 'shift', 'rename_idx', 'rename_pop', 'unique',
        'eigl', 'peq', 'erg', 'mask', 'rownorm', 'matpow', 'gauss', 'rmean']
 RND = ['mcmc', 'mcmc_obj', 'msm_wt', 'msm_wt_obj', 'msm_paths_obj']
 
@@ -120,11 +120,16 @@ def real(case):
         'series': np.array([rng.uniform(-2, 2) for _ in range(25)]),
         'old': [labs[0], labs[1]], 'new': [labs[1], labs[0]],
     }
+    # contiguous 1-d / 2-d label arrays with NEGATIVE labels handed to the relabelling utilities directly
+    flat = [rng.choice([-3, -1, 0, 2, 5]) for _ in range(24)]
+    shared['flat1d'] = np.array(flat, dtype=np.int64)
+    shared['flat2d'] = np.array([flat[:12], flat[12:]], dtype=np.int64)
+    shared['fold'], shared['fnew'] = [-3, 5], [5, -7]
     shared['obj'] = mh.StateTraj(shared['trajs'])
     brng = core.Rng(99)
     shared['big'] = [np.array([brng.randrange(3) for _ in range(25000)], dtype=np.int64) for _ in range(16)]   # 400k frames in 16 trajectories
     occ = sorted(set(labs))
-    S, F = [occ[0]], [occ[-1]]
+    S, F = [occ[0]], ([occ[-1]] if case['seed'] % 2 else occ[-2:])     # every other history: a final basin of two states
 
     def call(name, p):
         tr, obj = shared['trajs'], shared['obj']
@@ -147,6 +152,18 @@ def real(case):
             return {str(k): v for k, v in mh.md.estimate_paths(obj, S, F).items()}
         if name == 'sim':
             return mh.md.compare_discretization(tr, shared['trajs2'], method='directed' if p % 2 else 'symmetric')
+        if name == 'shift_flat':
+            return mh.shift_data(shared['flat1d'], shared['fold'], shared['fnew'])
+        if name == 'shift_2d':
+            return mh.shift_data(shared['flat2d'], shared['fold'], shared['fnew'])
+        if name == 'rename_idx_flat':
+            return mh.rename_by_index(shared['flat1d'], return_permutation=True)
+        if name == 'rename_idx_2d':
+            return mh.rename_by_index(shared['flat2d'], return_permutation=True)
+        if name == 'rename_pop_flat':
+            return mh.rename_by_population(shared['flat1d'], return_permutation=True)
+        if name == 'unique_flat':
+            return mh.unique(shared['flat2d'], return_counts=True)
         if name == 'shift':
             return mh.shift_data(tr, shared['old'], shared['new'])
         if name == 'rename_idx':
